@@ -66,3 +66,8 @@ Theorem C10_sharded_build_reproduced : forall size lg, permitted size lg ->
   build_sharded size HashMurmur3 entries = Ok r -> build_sharded size HashMurmur3 entries' = Ok r.
 Proof. exact build_sharded_perm. Qed.
 Print Assumptions C10_sharded_build_reproduced.
+
+Theorem C10_order_example :
+  exists r, build_sharded 8 HashMurmur3 demo_entries = Ok r /\ build_sharded 8 HashMurmur3 (rev demo_entries) = Ok r.
+Proof. exact demo_order_independent. Qed.
+Print Assumptions C10_order_example.
